@@ -196,9 +196,8 @@ theorem conformsZip_get (R : Rx) : (ts : List Ty) → (xs : List Json) → confo
     | succ i => exact ih.2 i t' x' (by simpa using ht) (by simpa using hx)
 
 theorem conformsFields_mem (R : Rx) (o : Obj) : (fs : List Fld) → conformsFields R fs o = true →
-    ∀ f ∈ fs, (match lookup f.name o with
-      | some x => conforms R f.ty x = true ∧ ∀ d ∈ f.deps, hasKey d o = true
-      | none => f.required = false)
+    ∀ f ∈ fs, (∀ x, lookup f.name o = some x → conforms R f.ty x = true ∧ ∀ d ∈ f.deps, hasKey d o = true) ∧
+      (lookup f.name o = none → f.required = false)
   | [], _, f, hm => by simp at hm
   | .mk a n t r d :: rest, h, f, hm => by
     rw [conformsFields] at h
